@@ -666,6 +666,9 @@ func (t *UpdateTran) update(th *core.Thread, table string, oldoff uint64, newrec
 
 func (t *UpdateTran) fkeyUpdateCascade(th *core.Thread, ts *meta.Schema, i int,
 	rec core.Record, key string) { // rec is old, key is new
+	if key == "" {
+		return // empty foreign keys do not refer to anything (same as delete)
+	}
 	ix := ts.Indexes[i]
 	ixcols := ix.Columns
 	encoded := ix.Ixspec.Encodes()
